@@ -12,7 +12,7 @@ from lib import dbcsnap
 from lib import matrices as M
 
 PID = "C05"
-EXTRA_PROPS = ("Num", "C05b", "C05c", "C05d", "C05e", "C05f", "C05g", "C05h", "C05i", "C05j", "C05k", "C05l", "C05m", "C05n")
+EXTRA_PROPS = ("Num", "C05b", "C05c", "C05d", "C05e", "C05f", "C05g", "C05h", "C05i", "C05j", "C05k", "C05l", "C05m", "C05n", "C05o")
 RULE = ("case 'rt' = a generated matrix of DBC-expressible content (identifier names incl. names longer than 32 characters, ECU names "
         "of >= 2 characters, standard/extended ids, CAN FD and J1939 frames, simple and extended multiplexing, float signals, limits, "
         "start values inside the limits and on the raw grid, cycle times, value tables with quotes, comments over several lines with "
@@ -175,7 +175,7 @@ def attr_section(work):
                 break
             tables.append({"name": tname, "entries": [[int(k), str(v)] for k, v in rows.items()]})
         sec = {"defs": defs, "defaults": [defaults[k] for k in sorted(defaults)], "gattrs": ga, "ecuattrs": ecus,
-               "ecunames": [e.name for e in work.ecus], "frames": frames, "tables": tables}
+               "ecunames": [e.name for e in work.ecus], "frames": frames, "tables": tables, "has_env": bool(work.env_vars)}
         if any(ch in json.dumps(sec) for ch in ("\\n", "\\r")):
             return None
         return sec
@@ -299,6 +299,9 @@ def cases_of(desc, rng=None):
             if sec.get("tables") is not None:
                 # the value tables of the matrix: the whole file (Model/DbcFile.lean writeCoreH)
                 cc["tables"] = sec["tables"]
+                if not sec.get("has_env"):
+                    # no environment variables: the model writes the file line for line (writeDbc), compared with the whole file
+                    cc["exact"] = True
     yield {"op": "core", "c": cc}
     # the file as a whole against the reader model of Model/DbcFile.lean: as written, and damaged (lines inserted, dropped, cut)
     for variant in range(3):
@@ -505,6 +508,8 @@ def observe_core(c, r):
     if cenc != enc and any(ord(ch) > 127 for ch in text):
         return {"skipped": "comment encoding differs from the file encoding"}
     lines = r["lines"]
+    if c.get("exact"):
+        return {"core": lines[:-1] if lines and lines[-1] == "" else list(lines)}
     out = list(section_lines(r))
     kinds = ("CM_ BO_ ", "CM_ SG_ ")
     if c.get("ecus") is not None:
@@ -844,6 +849,7 @@ def features(case, impl):
                 yield "core:ecu-attributes"
         if c.get("tables") is not None:
             yield "core:value-tables=%d" % min(len(c["tables"]), 4)
+        yield "core:whole file line for line" if c.get("exact") else "core:lines by kind"
         if c.get("fattrs"):
             yield "core:frame-attributes=%d" % min(sum(len(f.get("attrs", [])) for f in c["frames"]) // 4 * 4, 20)
             yield "core:signal-attributes=%d" % min(sum(len(sg.get("attrs", [])) for f in c["frames"] for sg in f["sigs"]) // 8 * 8, 40)
